@@ -88,7 +88,7 @@ func (p *QPlan) Valid() bool {
 			return false
 		}
 		for _, o := range t {
-			if o.K < 0 || o.K >= nQOps || o.G < 0 || (o.G > 64 && o.K != qBurst) || o.G > 300 || o.D < 0 || o.D > 3600e9 {
+			if o.K < 0 || o.K >= nQOps || o.G < 0 || (o.G > 64 && o.K != qBurst) || o.G > 70000 || o.D < 0 || o.D > 3600e9 {
 				return false
 			}
 		}
@@ -419,13 +419,21 @@ func GenQPlan(r *core.Rng) *QPlan {
 	if r.Chance(1, 8) {
 		// names injected with HardcodeUsers / HardcodeGroups; a group whose uid is the injected one
 		p.Hard = true
-		p.Groups = append(p.Groups, []QRec{{Tmpl: 0, Var: 7<<13 | uint32(r.Intn(1<<11))}})
+		p.Groups = append(p.Groups, []QRec{{Tmpl: 0, Var: 7<<13 | uint32(r.Intn(1<<11))}, {Tmpl: 3, Var: 4 | 2<<12}, {Tmpl: 4, Var: 1}}) // (with hex-encoded arguments and a unix socket path)
 		gi := (len(p.Groups) - 1) / nt // its index among the owner's groups
 		t := (len(p.Groups) - 1) % nt
 		ops := []QOp{{K: qCoalesce, G: gi}, {K: qResolveGlobal, G: 63}}
 		if r.Chance(1, 10) {
 			// many events with ids nobody has seen pass through the process-wide tables in between
 			ops = append(ops, QOp{K: qBurst, G: core.Pick(r, 30, 60, 60, 250)})
+		}
+		if r.Chance(1, 25) {
+			// a long series of calls in between: thousands of events resolved, or one compound group coalesced tens of thousands of times
+			if r.Chance(1, 2) {
+				ops = append(ops, QOp{K: qBurst, G: core.Pick(r, 600, 1100, 2100, 4200, 7000)})
+			} else {
+				ops = append(ops, QOp{K: qBurst, D: 1, G: core.Pick(r, 300, 1100, 4200, 9000, 17000, 33000, 66000, 70000)})
+			}
 		}
 		ops = append(ops, QOp{K: qCoalesce, G: gi}, QOp{K: qResolveGlobal, G: 63}, QOp{K: qResolveGlobal, G: 62})
 		p.Tasks[t] = append(p.Tasks[t], ops...)
@@ -987,8 +995,37 @@ func ExecQPlan(p *QPlan, trace bool) *core.Result {
 					t.Sleep(time.Duration(op.D))
 					advanced = true
 				case qBurst:
+					if op.D == 1 {
+						// the same compound group (SYSCALL, paths, hex-encoded arguments, a unix socket
+						// address) coalesced over and over: what a long-running process has behind it
+						lines := []struct {
+							t uint16
+							s string
+						}{{tSYSCALL, `arch=c000003e syscall=59 success=yes exit=0 items=2 ppid=1 pid=2 auid=0 uid=0 gid=0 euid=0 suid=0 fsuid=0 egid=0 sgid=0 fsgid=0 tty=pts0 ses=1 comm="x" exe="/x"`},
+							{tEXECVE, `argc=3 a0=2F7573722F62696E2F707974686F6E33 a1=2D63 a2=7072696E7428223132333435363738393031323334353637383930313233343536373839302229`},
+							{tCWD, `cwd="/root"`}, {tPATH, `item=0 name="/usr/bin/python3" inode=1 dev=fd:00 mode=0100755 ouid=0 ogid=0 rdev=00:00 nametype=NORMAL`},
+							{tPATH, `item=1 name=2F6C696236342F6C642D6C696E75782E736F2E32 inode=2 dev=fd:00 mode=0100755 ouid=0 ogid=0 rdev=00:00 nametype=NORMAL`},
+							{tSOCKADDR, `saddr=01002F72756E2F6E7363642F736F636B657400`}}
+						var ms []*auparse.AuditMessage
+						for j := 0; j < op.G; j++ {
+							if j%64 == 0 {
+								ms = ms[:0:0]
+								for _, l := range lines {
+									if m, perr := auparse.Parse(auparse.AuditMessageType(l.t), fmt.Sprintf("audit(1490137971.000:%d): %s", 800000+j, l.s)); perr == nil {
+										ms = append(ms, m)
+									}
+								}
+							}
+							if _, _, pan := safeCoalesce(ms); pan != "" {
+								viol("panic", "CoalesceMessages", fmt.Sprintf("CoalesceMessages panicked on its call number %d of a long series on one compound group: %s", j+1, pan))
+								break
+							}
+						}
+						h.Rec(evQOp, int64(oi), -3, int64(op.G), 0, "")
+						continue
+					}
 					for j := 0; j < op.G; j++ {
-						b := 20000 + ti*100000 + oi*3000 + j*10
+						b := 20000 + ti*100000 + oi*3000 + (j%300)*10 // (beyond 300 events the ids repeat: what is measured then is the number of calls)
 						line := fmt.Sprintf(`audit(1490137971.000:%d): arch=c000003e syscall=2 success=yes exit=0 items=0 ppid=1 pid=2 auid=%d uid=%d gid=%d euid=%d suid=%d fsuid=%d egid=%d sgid=%d fsgid=%d tty=pts0 ses=1 comm="x" exe="/x"`,
 							900000+j, b, b+1, b+2, b+3, b+4, b+5, b+6, b+7, b+8)
 						m, perr := auparse.Parse(tSYSCALL, line)
